@@ -165,6 +165,8 @@ pub enum Op {
     Recompress,
     SubSelf,
     Select(usize),
+    Zeroize,    // the wiped point is the identity in *all four* coordinates and usable afterwards
+    Sum(usize), // Sum over [P, pool[i], P] by reference and by value
 }
 
 #[derive(Clone, Debug, PartialEq, Eq, Hash)]
@@ -185,7 +187,8 @@ fn tor_step(op: Op, tor: u8, pool: &[Known]) -> u8 {
         Op::RSub(i) => pj(i) + 8 - tor,
         Op::Neg => 8 - tor,
         Op::Double | Op::GroupDouble => 2 * tor,
-        Op::Cofactor | Op::SubSelf => 0,
+        Op::Cofactor | Op::SubSelf | Op::Zeroize => 0,
+        Op::Sum(i) => 2 * tor + pj(i),
         Op::Recompress | Op::Select(_) => tor,
     }) % 8
 }
@@ -245,6 +248,18 @@ pub fn step(op: Op, p: &EdwardsPoint, m: &Pt, aj: &Option<(U, u8)>, pool: &[Know
             Op::Cofactor => (p.mul_by_cofactor(), m.dbl().dbl().dbl(), aj_mul(aj, 8)),
             Op::Recompress => (p.compress().decompress().expect("own encoding must decompress"), *m, aj.clone()),
             Op::SubSelf => (p - p, ed::ID, aj.as_ref().map(|_| (U::ZERO, 0))),
+            Op::Zeroize => {
+                let mut z = *p;
+                zeroize::Zeroize::zeroize(&mut z);
+                (z, ed::ID, aj.as_ref().map(|_| (U::ZERO, 0)))
+            }
+            Op::Sum(i) => {
+                let q = pool[i].real;
+                let by_ref: EdwardsPoint = [*p, q, *p].iter().sum();
+                let by_val: EdwardsPoint = vec![*p, q, *p].into_iter().sum();
+                assert!(by_ref.compress() == by_val.compress(), "Sum by reference and by value disagree");
+                (by_ref, m.add(&pool[i].pt).add(m), aj_add(&aj_mul(aj, 2), &pool[i].aj, false))
+            }
             Op::Select(i) => {
                 use subtle::ConditionallySelectable;
                 let a = EdwardsPoint::conditional_select(&pool[i].real, p, subtle::Choice::from(1));
@@ -289,11 +304,11 @@ impl Model for Machine {
         if s.bad.is_some() || s.depth >= self.max_depth {
             return;
         }
-        out.extend([Op::Neg, Op::Double, Op::GroupDouble, Op::Cofactor, Op::Recompress, Op::SubSelf]);
+        out.extend([Op::Neg, Op::Double, Op::GroupDouble, Op::Cofactor, Op::Recompress, Op::SubSelf, Op::Zeroize]);
         for i in 0..self.pool.len() {
             out.extend([Op::Add(i), Op::Sub(i), Op::RSub(i)]);
             if s.depth == 0 {
-                out.extend([Op::AddAssign(i), Op::SubAssign(i), Op::Select(i)]);
+                out.extend([Op::AddAssign(i), Op::SubAssign(i), Op::Select(i), Op::Sum(i)]);
             }
         }
     }
